@@ -220,10 +220,22 @@ func As[T fixed.Dx, TO xmath.Numeric](f Int[T]) TO {
 	var n TO
 	switch reflect.TypeOf(n).Kind() {
 	case reflect.Float32, reflect.Float64:
-		return TO(float64(f) / float64(Multiplier[T]()))
+		return TO(asFloat(f, reflect.TypeOf(n).Bits()))
 	default:
 		return TO(int64(f) / Multiplier[T]())
 	}
+}
+
+// asFloat returns the float of the given size (32 or 64 bits) nearest to f.
+func asFloat[T fixed.Dx](f Int[T], bits int) float64 {
+	const exact = 1 << 53
+	if bits == 64 && f > -exact && f < exact {
+		// Both operands are exactly representable, so the single division is correctly rounded.
+		return float64(f) / float64(Multiplier[T]())
+	}
+	// Otherwise float64(f) would already round, and rounding twice can miss the nearest value.
+	v, _ := strconv.ParseFloat(f.String(), bits) //nolint:errcheck // String() always produces a valid decimal number
+	return v
 }
 
 // CheckedAs is the same as As(), except that it returns an error if the value cannot be represented exactly in the
@@ -232,7 +244,7 @@ func CheckedAs[T fixed.Dx, TO xmath.Numeric](f Int[T]) (TO, error) {
 	var n TO
 	switch reflect.TypeOf(n).Kind() {
 	case reflect.Float32, reflect.Float64:
-		n = TO(float64(f) / float64(Multiplier[T]()))
+		n = TO(asFloat(f, reflect.TypeOf(n).Bits()))
 		if strconv.FormatFloat(float64(n), 'f', -1, reflect.TypeOf(n).Bits()) != f.String() {
 			return 0, fixed.ErrDoesNotFitInRequestedType
 		}
